@@ -35,7 +35,9 @@ def expected_entries(stack, sc, sh):
         if sc:
             for c in f["contexts"]:
                 ctx_entries(c, fname, ln, fn, sh, out)
-            if not (f["contexts"] and f["contexts"][-1]["is_exiting"]):
+            # (omitted when the exiting last context's entry stands in for it - not when that context is hidden and left out:
+            # every non-hidden frame has an entry)
+            if not (f["contexts"] and f["contexts"][-1]["is_exiting"] and (sh or not f["contexts"][-1]["hide"])):
                 out.append(("frame", fname, ln, fn))
         else:
             out.append(("frame", fname, ln, fn))
@@ -109,7 +111,7 @@ def judge(tree, res):
         exp = []
         for c in f["contexts"]:
             ctx_entries(c, fname, ln, fn, False, exp)
-        if not (f["contexts"] and f["contexts"][-1]["is_exiting"]):
+        if not (f["contexts"] and f["contexts"][-1]["is_exiting"] and not f["contexts"][-1]["hide"]):
             exp.append(("frame", fname, ln, fn))
         if [(g[0], g[1]) for g in fr["with"]] != [(e[1], e[2]) for e in exp]:
             return "Frame.as_stdlib_summary_with_contexts: got %r expected %r" % (fr["with"], exp)
